@@ -28,7 +28,7 @@ RULE = ("create_cooler(ordered=False): regression corpus (D9: 2 or 3 chunks with
         "chromosomes), both storage modes, columns count / count+x, mergebuf 1..N+1, max_merge 1..k+1, unsorted chunks with ensure_sorted, empty chunks; all chunk orders of "
         "3-chunk inputs; `cooler load -f coo` and `cooler cload pairs` with --chunksize 1..4, --max-merge, --mergebuf, --temp-dir; edges of the first merge pass observed "
         "with delete_temp=False; np.linspace edge lists for n <= 5000 checked admissible; merge_breakpoints at function level on every family of 1..2 monotone index "
-        "arrays of length 2..3 (increments 0..2) x bufsize 1..nnz+1 plus random larger ones; the known finding D22 in a fresh interpreter; parameter/representation audit (one case each): chunks as dict of arrays / list / int32 ids / int32 and float64 values / with an unrequested column, columns=None, dtypes None / partial / float default, ids listed in columns, default mergebuf, max_merge 0 and -1, temp_dir None (location observed with delete_temp=False) and \"-\"every DataFrame chunk of every API case gets a row-label representation by rotation (default RangeIndex, permutation of 0..n-1, labels running across chunks, strided RangeIndex, duplicate labels, string labels), plus dedicated cases per kind x ensure_sorted on (rows shuffled) / off x unordered (mergebuf 1, one and two passes) / ordered / one single DataFrame; , check flags off, output URI with group, mode=a / --append next to an existing cooler, `cooler load` --one-based / duplex / --count-as-float / --field / bg2 / chromsizes:binsize bins, `cload pairs` --zero-based / BED bins / permuted field numbers / duplex / --field score; a HISTORY pass in one process (12 ingests): the same output path, temp dir, bin-table objects, chunk list, columns / dtypes objects, sanitizer / aggregator objects and agg dict across consecutive ingests whose records, bin table (incl. same chromsizes and nbins), columns and storage mode change, chunks as generator / list / tuple / iterator, caller objects asserted unchanged; the bin table of every output is part of the observable. non-trivial = a pixel occurs in >= 2 chunks, or >= 2 merge epochs, or two passes; distinct by input hash")
+        "arrays of length 2..3 (increments 0..2) x bufsize 1..nnz+1 plus random larger ones; the known finding D22 in a fresh interpreter; parameter/representation audit (one case each): chunks as dict of arrays / list / int32 ids / int32 and float64 values / with an unrequested column, columns=None, dtypes None / partial / float default, ids listed in columns, default mergebuf, max_merge 0 and -1, temp_dir None (location observed with delete_temp=False) and \"-\"bin-id columns of dtype int32 / int64 / uint16 / uint32 / uint64 x ensure_sorted on (rows shuffled) / off x mergebuf 1 / 7 / 10^6 with max_merge 2 over 4 chunks repeating pixels, result also compared across mergebuf; every DataFrame chunk of every API case gets a row-label representation by rotation (default RangeIndex, permutation of 0..n-1, labels running across chunks, strided RangeIndex, duplicate labels, string labels), plus dedicated cases per kind x ensure_sorted on (rows shuffled) / off x unordered (mergebuf 1, one and two passes) / ordered / one single DataFrame; , check flags off, output URI with group, mode=a / --append next to an existing cooler, `cooler load` --one-based / duplex / --count-as-float / --field / bg2 / chromsizes:binsize bins, `cload pairs` --zero-based / BED bins / permuted field numbers / duplex / --field score; a HISTORY pass in one process (12 ingests): the same output path, temp dir, bin-table objects, chunk list, columns / dtypes objects, sanitizer / aggregator objects and agg dict across consecutive ingests whose records, bin table (incl. same chromsizes and nbins), columns and storage mode change, chunks as generator / list / tuple / iterator, caller objects asserted unchanged; the bin table of every output is part of the observable. non-trivial = a pixel occurs in >= 2 chunks, or >= 2 merge epochs, or two passes; distinct by input hash")
 TRUSTED = ["pandas concat/groupby/sort_values, np.linspace, tempfile.NamedTemporaryFile and h5py are observed through create_cooler, modelled by Model/Merge.v",
            "for the CLI runs the harness itself turns text lines into per-chunk records (bin assignment, upper-triangle reflection, per-chunk aggregation for cload): "
            "that is the ingest pipeline of C05, not part of this property"]
@@ -798,6 +798,32 @@ def index_cases(rng):
     return cs
 
 
+# --------------------------------------------------------------------- bin-id dtype x ensure_sorted x number of merge epochs
+ID_DTYPES = ["int32", "int64", "uint16", "uint32", "uint64"]
+
+
+def id_dtype_cases(rng):
+    """chunk bin-id columns of every integer dtype (signed and UNSIGNED), ensure_sorted on (rows really shuffled) and off
+    (rows sorted), 4 chunks of 8 records that repeat pixels across chunks, mergebuf 1 / 7 / large (many, a few, one merge
+    epoch), max_merge 2 (two passes); the result must be the in-memory aggregate and must not depend on mergebuf"""
+    cs = []
+    keys = G.all_keys(G.nbins("A6"), True)
+    for idt in ID_DTYPES:
+        for es in (True, False):
+            chunks = []
+            for _ in range(4):
+                ch = [[k[0], k[1], [rng.randint(1, 9)]] for k in rng.sample(keys, 8)]
+                if es:
+                    while [tuple(p[:2]) for p in ch] == sorted(tuple(p[:2]) for p in ch):
+                        rng.shuffle(ch)
+                else:
+                    ch.sort(key=lambda p: (p[0], p[1]))
+                chunks.append(ch)
+            for buf in (1, 7, 10 ** 6):
+                cs.append(("id-dtype:" + idt, api_case("A6", True, COLS1, chunks, buf, 2, ensure_sorted=es, id_dtype=idt)))
+    return cs
+
+
 # --------------------------------------------------------------------- history pass: state carried between calls
 def _agg_chunks(raw_chunks, symm, ncols, count_records):
     """what sanitize_pixels(tril_action='reflect') + aggregate_records hand over for each raw chunk"""
@@ -964,6 +990,7 @@ def run(ctx):
     cases += audit_cases(rng)
     cases += dtype_grid_cases(rng, thorough)
     cases += index_cases(rng)
+    cases += id_dtype_cases(rng)
 
     # known finding (temp files of the FIRST creation of a process survive it): exercised in a fresh
     # interpreter; this process is warmed up with one ordered creation so that every other case is
@@ -977,6 +1004,7 @@ def run(ctx):
     model = [mvals.get(i) for i in range(len(cases))]
     timeouts = 0
     groups = {}
+    bufgroups = {}
     for (kind, case), mo in zip(cases, model):
         ctx.case(case, nontrivial=nontrivial(case), kind=kind)
         if timeouts >= 3:
@@ -999,6 +1027,13 @@ def run(ctx):
             key = canon({"ax": case["ax"], "symm": case["symm"], "b": case["mergebuf"], "m": case["max_merge"],
                          "chunks": sorted(canon(ch) for ch in case["chunks"])})
             groups.setdefault(key, []).append((case, got))
+        if kind.startswith("id-dtype"):
+            key = canon({k: v for k, v in case.items() if k != "mergebuf"})
+            bufgroups.setdefault(key, []).append((case, got))
+    for grp in bufgroups.values():
+        for case, got in grp[1:]:
+            if canon(got) != canon(grp[0][1]):
+                ctx.fail(case, {"result depends on mergebuf": got, "with mergebuf %d" % grp[0][0]["mergebuf"]: grp[0][1]}, None)
     for grp in groups.values():
         for case, got in grp[1:]:
             if canon(got) != canon(grp[0][1]):
